@@ -94,6 +94,7 @@ func RaftConfig(dir string) *raft.Config {
 // NewRaftPeer starts a peer.
 func NewRaftPeer(o RaftOpts) (*RaftPeer, error) {
 	ctx := context.Background()
+	ipfscluster.ReadyTimeout = 120 * time.Second // loaded machine: never race the peer's own start-up watchdog
 	h, err := libp2p.New(ctx, libp2p.Identity(o.Key), libp2p.ListenAddrStrings("/ip4/127.0.0.1/tcp/0"))
 	if err != nil {
 		return nil, err
